@@ -40,12 +40,27 @@ def check_c12(ctx):
         if o['ref']['segs'] and any(s in ('.', '..', 'esc', 'uni') for s in o['ref']['segs']):
             rep.nontrivial.add((o['bases'], o['refs'], o['api']))
         if v['c12'] == 'fail':
-            rep.fail('c12', {'family': 'urls', 'base': o['base'], 'ref': o['ref'], 'want': o['want'], 'api': o['api'],
+            rep.fail('c12', {'family': 'urls', 'base': o['base'], 'ref': o['ref'], 'want': o['want'], 'api': o['api'], 'id': o['id'],
                              'bases': o['bases'], 'refs': o['refs'], 'gots': o['gots'], 'outcome': o['outcome']}, [],
                      'api=%s base=%s ref=%s loader got %s (%s), RFC 3986 wants %s' % (
                          o['api'], o['bases'], o['refs'], o['gots'], o['outcome'], o['want']))
         if len(rep.samples) < 4 and o['ref']['segs'] and '..' in o['ref']['segs'] and 'esc' in o['ref']['segs']:
             rep.samples.append({'api': o['api'], 'base': o['bases'], 'ref': o['refs'], 'loader_arg': o['gots'], 'want': o['want']})
+    # (c) references found in documents several hops away, and over successive calls that share one options value:
+    # the graphs of the expansion family in the layouts that put documents in other directories, judged by
+    # RefGraph!Bisimilar (whose Designates is Urls!Resolve from the containing document's location)
+    import fam_expander as fe
+    sd = fe.seeded(ctx)
+    lays = ['subdir', 'otherdir', 'parent', 'remote'] if ctx.tier != 'thorough' else fe.ORDINARY
+    batches = [fe.Batch(fe.G_N3_ALL_WF, lays, ['000'], [sd['rot']], reps=1, entry='ExpandSpec2:nobase,ExpandSpec2', names=sd['names'], spell='varied')]
+    rep2 = fe.run_batches(ctx, batches, ['c02'], [], nontrivial=lambda o, v: v['wf'] and len(o['docurls']) > 1)
+    rep.evaluations += rep2.evaluations
+    rep.violations += rep2.violations
+    for k_, n_ in rep2.counts.items():
+        rep.counts['graphs:' + k_] = n_
+    for k_, n_ in rep2.hit.items():
+        rep.hit[k_] = rep.hit.get(k_, 0) + n_
+    rep.nontrivial |= rep2.nontrivial
     return rep.finish(
         'model_checking',
         'TLC enumerates exhaustively every reference whose path has <= %d segments over {plain, dotted name, ".", "..", '
@@ -54,6 +69,9 @@ def check_c12(ctx):
         'bases; Urls!Resolve (RFC 3986 5.2 transcribed) gives the expected loader URL, its laws are model-checked and it is '
         'cross-checked on every pair against net/url.ResolveReference (disagreement = broken model, exit 2). Every pair is run '
         'through ExpandSchemaWithBasePath and ResolveRefWithBase with a recording PathLoader; TLC compares the recorded argument. '
+        'Second hop: the same pairs with the base as an INTERMEDIATE document reached by an absolute $ref from a root whose location is a '
+        'string prefix of it (schema, response and parameter holders): the request that follows must be Resolve(intermediate, ref). '
+        'Successive calls: every enumerated N<=3 graph expanded twice with one options value, with and without RelativeBase, judged by bisimilarity. '
         'distinct_nontrivial = distinct (base, ref, api) whose path contains a dot segment, an escape or a non-ASCII segment.' % maxsegs,
         ['atoms are concretised as a, b.json, "e s" (written e%20s), "u\\u00e9"; one representative per class',
          'network-path references (//host/p) and queries are outside the enumerated alphabet'],
@@ -64,7 +82,7 @@ def replay_urls(ctx, rec):
     vlib.build_worker(ctx)
     c = rec['case']
     f = ctx.path('replay.ndjson')
-    open(f, 'w').write(json.dumps({'base': c['base'], 'ref': c['ref'], 'want': c['want']}) + '\n')
+    open(f, 'w').write(json.dumps({'base': c['base'], 'ref': c['ref'], 'want': c['want'], 'id': c.get('id', 1), 'api': c.get('api', '')}) + '\n')
     obsfiles = vlib.run_worker(ctx, 'urls', f, [], shards=1, prefix='replay')
     pairs = vlib.run_oracle(ctx, 'UrlCases', obsfiles, consts={'MaxSegs': '3', 'Mode': '"judge"'}, cfg_names=('InFile', 'OutFile'))
     bad = 0
@@ -99,8 +117,18 @@ def check_c11(ctx):
         # model check + export of the reachable spellings in one TLC run
         vlib.model_check(ctx, 'Spell', spell_cfg(site, depth, k, 'gen', '', out, True), label, workers=4)
         obsfiles = vlib.run_worker(ctx, 'spell', out, ['-site', site, '-depth', str(depth)], prefix='spell_' + label, shards=8)
-        pairs = vlib.run_oracle(ctx, 'Spell', obsfiles, cfg_names=('InFile', 'OutFile'),
-                                consts={'MaxRewrites': str(k), 'Site': '"%s"' % site, 'Depth': str(depth), 'Mode': '"judge"'})
+        consts = {'MaxRewrites': str(k), 'Site': '"%s"' % site, 'Depth': str(depth), 'Mode': '"judge"'}
+        pairs = vlib.run_oracle(ctx, 'Spell', obsfiles, cfg_names=('InFile', 'OutFile'), consts=consts)
+        hung = [o for o, v in pairs if o['outcome'] == 'timeout']
+        if hung:
+            # a hang may be the machine's doing: the first few are run again, alone, with a generous watchdog
+            cf = ctx.path('spell_confirm_%s.ndjson' % label)
+            open(cf, 'w').write(''.join(json.dumps(o['sp']) + '\n' for o in hung[:4]))
+            again = vlib.run_worker(ctx, 'spell', cf, ['-site', site, '-depth', str(depth), '-watchdog', '30s'], prefix='spellc_' + label, shards=4)
+            still = sum(1 for f in again for l in open(f) if json.loads(l)['outcome'] == 'timeout')
+            log('[confirm] %d spellings hung; %d of %d hang again alone' % (len(hung), still, len(hung[:4])))
+            if still < len(hung[:4]):
+                pairs = [(o, v) for o, v in pairs if o['outcome'] != 'timeout']
         for o, v in pairs:
             rep.evaluations += 1
             if o['outcome'] == 'harness-error':
@@ -193,10 +221,12 @@ def check_c05(ctx):
     # (b) graph layer: every node of every enumerated graph, nested pointers, other documents, dangling
     layouts = fe.ALL_LAYOUTS if ctx.tier == 'thorough' else [fe.ALL_LAYOUTS[(ctx.seed + i) % len(fe.ALL_LAYOUTS)] for i in (0, 3, 5)] + ["remoteq"]
     gensets = [fe.G_N3_ALL_WF] + ([fe.G_N4_S_WF, fe.G_N3_D3_WF] if ctx.tier == 'thorough' else [])
-    for gi, gs in enumerate(gensets):
-        lay = layouts if gs[1] == 2 else [a + '+subdir' for a in layouts]
+    # the root on a remote site, other documents on that site, on another one and in local files
+    runs = [(gs, layouts, '') for gs in gensets] + [(fe.G_N3_ALL_WF, ['localfile', 'remote'] + (['sibling', 'subdir', 'parent'] if ctx.tier == 'thorough' else []), 'http')]
+    for gi, (gs, lays, site) in enumerate(runs):
+        lay = lays if gs[1] == 2 else [a + '+subdir' for a in lays]
         obsfiles = vlib.run_worker(ctx, 'resolve', fe.gen(ctx, *gs),
-                                   ['-layouts', ','.join(lay), '-rots', str(sd['rot']), '-names', 'special', '-spell', 'varied'],
+                                   ['-layouts', ','.join(lay), '-rots', str(sd['rot']), '-names', 'special', '-spell', 'varied', '-site', site],
                                    prefix='res%d' % gi)
         for o, v in vlib.run_oracle(ctx, 'ResOracle', obsfiles):
             rep.evaluations += 1
@@ -209,7 +239,7 @@ def check_c05(ctx):
                 rep.count(pn + ':' + v[pn])
                 if v[pn] == 'fail':
                     rep.fail(pn, {'family': 'resolve', 'abstract': o['abstract'], 'layout': o['layout'], 'rot': o['rot'], 'names': o['names'],
-                                  'spell': o['spell'], 'mode': o['mode'], 'api': o['api'], 'kind': o['kind'], 'refs': o['refs'],
+                                  'spell': o['spell'], 'site': o.get('site') or '', 'mode': o['mode'], 'api': o['api'], 'kind': o['kind'], 'refs': o['refs'],
                                   'outcome': o['outcome'], 'err': o['err'], 'result': o['resjson'], 'documents': o['concrete'], 'docurls': o['docurls']}, [],
                              'mode=%s api=%s kind=%s $ref=%s outcome=%s err=%s result=%s docs=%s' % (
                                  o['mode'], o['api'], o['kind'], o['refs'], o['outcome'], o['err'][:60], o['resjson'][:80], o['concrete'][:2]))
@@ -248,7 +278,8 @@ def replay_resolve(ctx, rec):
                     bad += 0 if r['ok'] else 1
         print('REPRODUCED' if bad else 'NOT-REPRODUCED')
         return 1 if bad else 0
-    case = {'case': 1, 'nodes': c['abstract'], 'layout': c['layout'], 'rot': c['rot'], 'entry': 'Resolve', 'names': c['names'], 'spell': c['spell']}
+    case = {'case': 1, 'nodes': c['abstract'], 'layout': c['layout'], 'rot': c['rot'], 'entry': 'Resolve', 'names': c['names'], 'spell': c['spell'],
+            'site': c.get('site') or ''}
     open(f, 'w').write(json.dumps(case) + '\n')
     obsfiles = vlib.run_worker(ctx, 'resolve', f, [], shards=1, prefix='replay')
     bad = 0
